@@ -297,6 +297,31 @@ example : checkOptTrivia (.single (.str "all+3".toList)) = true ∧ checkOptTriv
 example : getTriviaParams (.single (.str "all+3".toList)) false
     = some ⟨.str "all".toList, .int 3, false, .str "line".toList, .bool false, false⟩ := by decide
 
+/-! ### option resolution in front of `get_trivia_params` -/
+
+/-- a value passed to the call wins over every default -/
+theorem effective_call {α : Type} (v : α) (s : OptState α) : effective (some v) s = v := rfl
+
+/-- inside `with FST.options(opt=v)` a call without the option sees `v`; leaving the block restores the state exactly,
+whatever `set_options` did to this option inside -/
+theorem options_block {α : Type} (v : α) (s : OptState α) :
+    effective none (s.step (.enter v)) = v ∧ (s.step (.enter v)).step .exit = s
+    ∧ ∀ w, ((s.step (.enter v)).step (.set w)).step .exit = s := ⟨rfl, rfl, fun _ => rfl⟩
+
+/-- `set_options` changes what calls without the option see, and nothing else -/
+theorem set_options_effective {α : Type} (v : α) (s : OptState α) (c : Option α) :
+    effective c (s.step (.set v)) = c.getD v := by cases c <;> rfl
+
+/-- **The selected trivia depends only on the effective option value**: whatever the channel (per call, `FST.options()`,
+`FST.set_options()`), equal effective values give equal `get_trivia_params` results and therefore equal leading / trailing
+trivia spans (anything computed from the parameters). -/
+theorem trivia_depends_on_effective {β : Type} (c1 c2 : Option TrivOpt) (s1 s2 : OptState TrivOpt) (neg : Bool)
+    (h : effective c1 s1 = effective c2 s2) (F : Option TParams → β) :
+    F (getTriviaParams (effective c1 s1) neg) = F (getTriviaParams (effective c2 s2) neg) := by rw [h]
+
+example : effective none ((⟨TrivOpt.single (.bool true), []⟩ : OptState TrivOpt).step (.enter (.tuple [.bool false, .bool false])))
+    = effective (some (.tuple [.bool false, .bool false])) ⟨.single (.bool true), []⟩ := rfl
+
 /-! ### non-vacuity (trivia) -/
 
 private def B0 : List Line := ["a = 1".toList, "".toList, "# lead 1".toList, "".toList, "    # lead 2".toList,
